@@ -1,7 +1,7 @@
 """X01 - specification coverage BEYOND the listed properties (not registered in MANIFEST.json; `./check X01`).
 The specifications keep growing to cover more of numqi's behaviour; parts that belong to none of C01..C20 are decided here, so
 that a defect in them can never be reported against a listed property.
-specs: specs/extra/{MC_Qudit,MC_SymplecticGS,MC_PauliOrbit,MC_SymBasis,MC_SchurWeyl,MC_GroupMisc,MC_ClosedGME,MC_IndexStore,MC_Query,MC_LocalBasis}.tla"""
+specs: specs/extra/{MC_Qudit,MC_SymplecticGS,MC_PauliOrbit,MC_SymBasis,MC_SchurWeyl,MC_GroupMisc,MC_ClosedGME,MC_IndexStore,MC_Query,MC_LocalBasis,MC_VectorSpace}.tla"""
 import itertools, math, random
 import numpy as np
 from .. import tlc, core
@@ -494,6 +494,50 @@ def run_localbasis(ctx):
             ctx.violation('X01:get_1dchain_2local_pauli_basis:exception', type(ex).__name__ + ': ' + str(ex)[:160], data)
 
 
+def run_vectorspace(ctx, quick):
+    """MC_VectorSpace: exact ranks of families of Gaussian-integer vectors (over C and over R) against the vector-space helpers of
+    numqi.matrix_space: linear independence, reduction to an orthonormal family, orthogonal complement, equality of spans"""
+    import numqi
+    MS = numqi.matrix_space
+    r = tlc.run('extra/MC_VectorSpace.tla', 'extra/MC_VectorSpace.cfg', dump=True, timeout=1800)
+    ctx.add_model('MC_VectorSpace(M=3)', r)
+    states = list(tlc.parse_dump(r))
+    states.sort(key=lambda st: repr(st['fam']))
+    if quick:
+        states = states[::4]
+    arr = lambda F: np.array([[complex(e[0], e[1]) for e in v] for v in F])
+    for st in states:
+        V, W = arr(st['fam'][0]), arr(st['fam'][1])
+        o = st['obs']
+        m = V.shape[1]
+        data = dict(V=st['fam'][0], W=st['fam'][1], ranks=o)
+        ctx.case(('vecspace', repr(st['fam'])))
+        try:
+            bad = []
+            if bool(MS.is_vector_linear_independent(V, 'complex')) != (o['rcV'] == len(V)):
+                bad.append('is_vector_linear_independent(complex)')
+            if bool(MS.is_vector_linear_independent(V, 'real')) != (o['rrV'] == len(V)):
+                bad.append('is_vector_linear_independent(real)')
+            R = np.asarray(MS.reduce_vector_space(V))
+            if R.shape != (o['rcV'], m) or (len(R) and core.gt(np.abs(R.conj() @ R.T - np.eye(len(R))).max(), 1e-8)) \
+                    or (len(R) and np.linalg.matrix_rank(np.vstack([V, R]), tol=1e-8) != o['rcV']):
+                bad.append('reduce_vector_space')
+            B = np.asarray(MS.get_vector_orthogonal_basis(V))
+            if B.shape != (m - o['rcV'], m) or (len(B) and (core.gt(np.abs(B.conj() @ B.T - np.eye(len(B))).max(), 1e-8) or core.gt(np.abs(B.conj() @ V.T).max(), 1e-8))):
+                bad.append('get_vector_orthogonal_basis')
+            eqc = o['rcV'] == o['rcU'] and o['rcW'] == o['rcU']
+            eqr = o['rrV'] == o['rrU'] and o['rrW'] == o['rrU']
+            if bool(MS.is_vector_space_equivalent(V, W, 'complex')) != eqc:
+                bad.append('is_vector_space_equivalent(complex)')
+            if bool(MS.is_vector_space_equivalent(V, W, 'real')) != eqr:
+                bad.append('is_vector_space_equivalent(real)')
+            for b in bad:
+                ctx.violation('X01:%s:rank' % b, '%s disagrees with the exact ranks of the specification' % b, data)
+            ctx.traces += 1
+        except Exception as ex:
+            ctx.violation('X01:vector-space:exception', type(ex).__name__ + ': ' + str(ex)[:160], data)
+
+
 def run(ctx):
     quick = ctx.tier == 'quick'
     ctx.rule = ('beyond the listed properties: Weyl-Heisenberg matrices d = 2, 4, 8 (commutation, order, Fourier relation as TLC invariants); symplectic Gram-Schmidt over F2 for every list of '
@@ -511,6 +555,7 @@ def run(ctx):
     run_index_store(ctx, quick)
     run_query(ctx)
     run_localbasis(ctx)
+    run_vectorspace(ctx, quick)
     ctx.sample(dict(kind='extra-models', models=[m['model'] for m in ctx.models]))
 
 
